@@ -324,14 +324,19 @@ class ProductType(ParametrizedDependentType):
         return (
             isinstance(value, tuple)
             and len(value) == len(self.parameters)
-            and all(isinstance(x, t) for x, t in zip(value, self.parameters))
+            and all(instancecheck(x, t) for x, t in zip(value, self.parameters))
         )
 
     def codegen(self):
         checks = ["len({arg}) == {n}"]
         params = {"n": len(self.parameters)}
         for i, p in enumerate(self.parameters):
-            checks.append(f"isinstance({{arg}}[{i}], {{p{i}}})")
+            if not isinstance(p, type) and get_origin(p) is not None:
+                # type[A] and the like, which isinstance refuses
+                checks.append(f"{{ic}}({{arg}}[{i}], {{p{i}}})")
+                params["ic"] = instancecheck
+            else:
+                checks.append(f"isinstance({{arg}}[{i}], {{p{i}}})")
             params[f"p{i}"] = p
         return CodeGen(" and ".join(checks), params)
 
@@ -350,13 +355,13 @@ class ProductType(ParametrizedDependentType):
 
 @dependent_check(bound_is_name=True)
 def SequenceFastCheck(value: Sequence, typ):
-    return not value or isinstance(value[0], typ)
+    return not value or instancecheck(value[0], typ)
 
 
 @dependent_check(bound_is_name=True)
 def CollectionFastCheck(value: Collection, typ):
     for x in value:
-        return isinstance(x, typ)
+        return instancecheck(x, typ)
     else:
         return True
 
@@ -367,7 +372,7 @@ def MappingFastCheck(value: Mapping, kt, vt):
         return True
     for k in value:
         break
-    return isinstance(k, kt) and isinstance(value[k], vt)
+    return instancecheck(k, kt) and instancecheck(value[k], vt)
 
 
 @dependent_check
